@@ -135,6 +135,7 @@ type Result struct {
 	Global   map[string]int
 	FailOff  int
 	Expected []string
+	NoMatch  bool // the synthesized "no match found" error is the (only) error
 }
 
 type handler struct {
@@ -782,6 +783,7 @@ func Run(g *Grammar, entry string, in []byte, cfg Config) (res Result) {
 			}
 			res.FailOff = m.failO
 			res.Expected = rest
+			res.NoMatch = true
 			msg := "no match found, expected: "
 			switch len(rest) {
 			case 0:
